@@ -232,6 +232,36 @@ def extract_inline_events():
     return events
 
 
+MUTABLE_CALLS = {"set", "dict", "list", "defaultdict", "OrderedDict", "collections.defaultdict",
+                 "collections.OrderedDict", "Counter", "collections.Counter", "deque", "collections.deque", "bytearray"}
+
+
+def _is_mutable_literal(v):
+    if isinstance(v, (ast.Dict, ast.List, ast.Set, ast.ListComp, ast.DictComp, ast.SetComp)):
+        return True
+    return isinstance(v, ast.Call) and dotted(v.func) in MUTABLE_CALLS
+
+
+def extract_class_mutables():
+    """Class-body assignments of mutable containers (`x: Set[...] = set()`, `cache = {}`): one object
+    shared by every instance — state that outlives a build. [file, class, attribute]."""
+    out = []
+    for path in sorted((REPO / "src" / "spox").glob("_*.py")):
+        if path.name in ("__init__.py", "_version.py"):
+            continue
+        mod = ast.parse(path.read_text(), filename=str(path))
+        for cls in [n for n in ast.walk(mod) if isinstance(n, ast.ClassDef)]:
+            for st in cls.body:
+                tg, val = None, None
+                if isinstance(st, ast.Assign) and len(st.targets) == 1 and isinstance(st.targets[0], ast.Name):
+                    tg, val = st.targets[0].id, st.value
+                elif isinstance(st, ast.AnnAssign) and isinstance(st.target, ast.Name) and st.value is not None:
+                    tg, val = st.target.id, st.value
+                if tg is not None and _is_mutable_literal(val):
+                    out.append([path.name, cls.name, tg])
+    return out
+
+
 def site_lean(s):
     return ("⟨" + ", ".join([lean_str(s["file"]), lean_str(s["func"]), lean_str(s["recv"]), lean_str(s["attr"]),
                              lean_str(s["kind"]), lean_bool(s["ctor"]), lean_bool(s["fin"]), lean_bool(s["tryf"])]) + "⟩")
@@ -240,6 +270,10 @@ def site_lean(s):
 def generate() -> dict:
     sites = extract_sites()
     events = extract_inline_events()
+    try:
+        mutables = extract_class_mutables()
+    except Exception as e:  # noqa: BLE001
+        mutables = [["<unreadable>", type(e).__name__, "?"]]
     lines = [HEADER.format(src="src/spox/_*.py", tool="translator/writes.py"),
              "import SpoxModel.Model.Purity\n",
              "namespace Generated.Writes\nopen Purity\n",
@@ -247,9 +281,11 @@ def generate() -> dict:
     lines.append(",\n".join("  " + site_lean(s) for s in sites))
     lines.append("]\n")
     lines.append(f"def inlineEvents : List Ev := {lean_list(['.' + e.replace('-', '_') for e in events])}\n")
+    lines.append("def classMutables : List (String × String × String) := " + lean_list(
+        ["(" + ", ".join(lean_str(x) for x in m) + ")" for m in mutables]) + "\n")
     lines.append("end Generated.Writes\n")
     write_if_changed(GEN / "Writes.lean", "\n".join(lines))
-    return {"sites": sites, "inline_events": events}
+    return {"sites": sites, "inline_events": events, "class_mutables": mutables}
 
 
 if __name__ == "__main__":
